@@ -73,7 +73,7 @@ theorem setNode_trials (q : Sql) (hw : WF q) (k : SKey) (row : SKey × Head) (hr
 
 theorem wf_trials (q : Sql) (hw : WF q) (T' : List (SKey × Trial))
     (h : ∀ r ∈ T', q.hasStudy r.1 = true) : WF { q with trials := T' } :=
-  ⟨hw.ownersNodup, hw.studyKeys, hw.studyOwner, h⟩
+  ⟨hw.ownersNodup, hw.studyKeys, hw.studyOwner, h, hw.noOrphanOps⟩
 
 theorem filter_append_single (rows : List (SKey × Trial)) (x : SKey × Trial) (key : SKey) :
     ((rows ++ [x]).filter (·.1 == key)).map (·.2) =
